@@ -221,7 +221,9 @@ func Actor(i int) {}
 
 // WouldBlock natively cannot be decided without blocking; replay of such
 // counterexamples is done by the VM only.
-func WouldBlock(f func()) bool { panic("vnd.WouldBlock is VM-only") }
+func WouldBlock(f func()) bool { panic(vmOnly{"vnd.WouldBlock"}) }
+
+type vmOnly struct{ what string }
 
 func Go(f func())    { go f() }
 func Yield()         {}
@@ -260,6 +262,8 @@ func runOnce(f func()) (status string) {
 			status = "assume"
 		case assertFailed:
 			status = "violation:" + r.id
+		case vmOnly:
+			status = "vm-only:" + r.what
 		default:
 			status = fmt.Sprintf("panic:%v", r)
 		}
